@@ -17,6 +17,33 @@ PTRBITS = 64
 REGION_SHIFT = 40            # region k lives at [k << 40, (k+1) << 40)
 
 
+def _short(e):
+    """cheap printable form of a z3 term (pretty-printing a large DAG can take minutes)"""
+    if not isinstance(e, z3.ExprRef):
+        return str(e)
+    if z3.is_bv_value(e):
+        return str(e.as_long())
+    if z3.is_const(e):
+        return str(e)
+    try:
+        if all(z3.is_const(c) or z3.is_bv_value(c) for c in e.children()) and e.num_args() <= 3:
+            return str(e)
+    except Exception:
+        pass
+    return '<%s-term #%d>' % (e.decl().name(), e.get_id())
+
+
+class LocalEnv(dict):
+    """SSA environment of one function activation.  `raw[name] = (loop context, value)` remembers the value defined in
+    one unrolled iteration instance; a use in the same instance (`view`) sees it unmerged (it dominates the use)."""
+    __slots__ = ('raw', 'view')
+
+    def __init__(self):
+        dict.__init__(self)
+        self.raw = {}
+        self.view = None
+
+
 class Unsupported(Exception):
     pass
 
@@ -122,6 +149,7 @@ class Exec:
         self.stats = dict(blocks=0, edges=0, ins=0, inlined=0)
         self.assumptions = []    # constraints introduced by stubs (e.g. allocator results are fresh)
         self._sdivs = {}         # per run: AST id of a bvsdiv result -> (dividend, divisor, result)
+        self._cur_guard = z3.BoolVal(True)
         self.unit_mul_split = False   # rewrite x*y to an ite over y in {1,-1,0} (exactly equivalent)
         self.arith_log = []      # executed mul/sdiv/srem with symbolic operands: dict(op, g, x, y, r, fn) (operand lemmas)
         self.trace_functions = set()
@@ -269,6 +297,11 @@ class Exec:
         k = v[0]
         if k == 'local':
             try:
+                raw = getattr(env, 'raw', None)
+                if raw is not None:
+                    rd = raw.get(v[1])
+                    if rd is not None and rd[0] == env.view:
+                        return rd[1]          # defined in this same unrolled iteration instance: no merge needed
                 return env[v[1]]
             except KeyError:
                 raise Unsupported('use of undefined value %s' % v[1])
@@ -464,6 +497,78 @@ class Exec:
         walk(z3.simplify(bv), [])
         return out if 0 < len(out) <= limit else [(z3.BoolVal(True), bv)]
 
+    def _value_set(self, e, limit=96):
+        """sound over-approximation of the values a BV expression can take, as a set of ints, or None if unknown
+        (ite trees of constants, sums/differences of such, zero/sign extensions, concatenations with constants)"""
+        memo = {}
+        mask = (1 << e.size()) - 1
+
+        def vs(x):
+            k = x.get_id()
+            if k in memo:
+                return memo[k]
+            r = None
+            if z3.is_bv_value(x):
+                r = {x.as_long()}
+            elif z3.is_app_of(x, z3.Z3_OP_ITE):
+                a, b = vs(x.arg(1)), vs(x.arg(2))
+                r = (a | b) if a is not None and b is not None else None
+            elif z3.is_app_of(x, z3.Z3_OP_BADD) or z3.is_app_of(x, z3.Z3_OP_BSUB):
+                m = (1 << x.size()) - 1
+                acc = None
+                for i, c in enumerate(x.children()):
+                    cv = vs(c)
+                    if cv is None:
+                        acc = None
+                        break
+                    if acc is None:
+                        acc = set(cv)
+                    else:
+                        acc = {((a + b) if z3.is_app_of(x, z3.Z3_OP_BADD) else (a - b)) & m for a in acc for b in cv}
+                    if len(acc) > limit:
+                        acc = None
+                        break
+                r = acc
+            elif z3.is_app_of(x, z3.Z3_OP_ZERO_EXT):
+                r = vs(x.arg(0))
+            elif z3.is_app_of(x, z3.Z3_OP_SIGN_EXT):
+                a = vs(x.arg(0))
+                w = x.arg(0).size()
+                r = None if a is None else {(v if v < (1 << (w - 1)) else v - (1 << w)) & ((1 << x.size()) - 1) for v in a}
+            elif z3.is_app_of(x, z3.Z3_OP_CONCAT):
+                acc = {0}
+                for c in x.children():
+                    cv = vs(c)
+                    if cv is None:
+                        acc = None
+                        break
+                    acc = {(a << c.size()) | b for a in acc for b in cv}
+                    if len(acc) > limit:
+                        acc = None
+                        break
+                r = acc
+            if r is not None and len(r) > limit:
+                r = None
+            memo[k] = r
+            return r
+        return vs(e)
+
+    def _field_offsets(self, r, off_s, n, guard, what):
+        """concrete offsets a symbolic offset into a field-map region may take (superset), creating a proof obligation
+        when only the offsets already present can be tracked"""
+        vals = self._value_set(off_s)
+        hi = r.size if isinstance(r.size, int) else None
+        if vals is not None:
+            return sorted(v for v in vals if hi is None or v + n <= hi)
+        if hi is not None and hi <= 160:
+            return list(range(0, hi - n + 1))
+        keys = sorted(k for k, (kn, _) in r.fields.items() if kn == n)
+        if not keys:
+            raise Unsupported('%s at symbolic offset %s into %s' % (what, off_s, r.name))
+        self.ub.append((z3.And(guard, z3.Not(z3.Or(*[off_s == z3.BitVecVal(k, 64) for k in keys]))),
+                        '%s of %s at an offset the memory model does not track (%s)' % (what, r.name, _short(off_s)), 'memory-model'))
+        return keys
+
     def _candidates(self, p, guard, what, fn):
         """[(region, condition, offset BV64)] for a dereference; emits NULL / wild-pointer obligations"""
         hi = z3.simplify(z3.Extract(63, REGION_SHIFT, p.bv))
@@ -471,7 +576,7 @@ class Exec:
             rid = hi.as_long()
             r = self.regions.get(rid)
             if r is None or (rid not in p.regions and p.regions):
-                self.ub.append((guard, '%s through NULL or a pointer into no known object (%s)' % (what, z3.simplify(p.bv)), fn))
+                self.ub.append((guard, '%s through NULL or a pointer into no known object (%s)' % (what, _short(z3.simplify(p.bv))), fn))
                 return []
             return [(r, z3.BoolVal(True), z3.simplify(p.bv - z3.BitVecVal(r.base, 64)))]
         out = []
@@ -515,7 +620,7 @@ class Exec:
         bad = z3.Or(z3.UGT(off, size), z3.UGT(off + z3.BitVecVal(n, 64), size))
         bad = z3.simplify(bad)
         if not z3.is_false(bad):
-            self.ub.append((z3.And(guard, bad), '%s outside %s (offset %s, %d bytes, size %s)' % (what, r.name, off, n, r.size), fn))
+            self.ub.append((z3.And(guard, bad), '%s outside %s (offset %s, %d bytes, size %s)' % (what, r.name, _short(off), n, _short(r.size)), fn))
         if not z3.is_false(r.freed):
             self.ub.append((z3.And(guard, r.freed), '%s of freed object %s' % (what, r.name), fn))
 
@@ -530,6 +635,7 @@ class Exec:
         result = None
         for r, c, off in reversed(cands):
             self._bounds(r, off, n, z3.And(guard, c), 'load', fn)
+            self._cur_guard = z3.And(guard, c)
             v = self._read(r, off, n, t)
             result = v if result is None else self.ite(c, v, result)
         return result
@@ -578,10 +684,12 @@ class Exec:
         off_s = z3.simplify(off)
         if z3.is_bv_value(off_s):
             return self._read_concrete(r, off_s.as_long(), n, t)
-        # symbolic offset into a field map: ite over the known fields of this size
-        keys = [k for k, (kn, _) in r.fields.items() if kn == n]
+        # symbolic offset into a field map: ite over the offsets it can take
+        keys = self._field_offsets(r, off_s, n, self._cur_guard, 'load')
         if not keys:
-            raise Unsupported('symbolic offset %s into region %s with no %d-byte fields' % (off_s, r.name, n))
+            # every value the offset can take lies outside the object: the bounds obligation already emitted for this
+            # access covers it; the loaded value is arbitrary
+            return self.fresh_of(t, 'oob_load') if t.kind != 'ptr' else NULLPTR
         res = self._read_concrete(r, keys[-1], n, t)
         for k in reversed(keys[:-1]):
             res = self.ite(off_s == z3.BitVecVal(k, 64), self._read_concrete(r, k, n, t), res)
@@ -663,10 +771,7 @@ class Exec:
             return
         off_s = z3.simplify(off)
         if not z3.is_bv_value(off_s):
-            keys = [k for k, (kn, _) in r.fields.items() if kn == n]
-            if not keys:
-                raise Unsupported('store at symbolic offset %s into %s' % (off_s, r.name))
-            for k in keys:
+            for k in self._field_offsets(r, off_s, n, g, 'store'):
                 self._write_concrete(r, k, n, val, t, z3.And(g, off_s == z3.BitVecVal(k, 64)))
             return
         self._write_concrete(r, off_s.as_long(), n, val, t, g)
@@ -781,6 +886,8 @@ class Exec:
         elif op in ('udiv', 'urem'):
             need(y == 0, 'division by zero')
             r = z3.UDiv(x, y) if op == 'udiv' else z3.URem(x, y)
+            if not z3.is_bv_value(z3.simplify(x)):
+                self.arith_log.append(dict(op=op, g=g, x=x, y=y, r=r, fn=fn))
         else:
             raise Unsupported('binop ' + op)
         return r
@@ -924,7 +1031,7 @@ class Exec:
         exceeded_from = {}
         for node, h in exceeded:
             exceeded_from.setdefault(node, []).append(h)
-        env = {}
+        env = LocalEnv()
         if len(args) != len(fn.params):
             raise Unsupported('call of %s with %d args (expects %d)' % (name, len(args), len(fn.params)))
         for (t, pname), a in zip(fn.params, args):
@@ -944,6 +1051,7 @@ class Exec:
             if z3.is_false(g):
                 continue
             label, ctx = node
+            env.view = ctx
             self.stats['blocks'] += 1
             inss = blocks[label]
             # phis first (parallel semantics)
@@ -957,7 +1065,9 @@ class Exec:
                         if pn[0] != lab:
                             continue
                         eg = eguard[(pn, node)]
+                        env.view = pn[1]
                         cv = self.value(ins.ty, v, env)
+                        env.view = ctx
                         val = cv if val is None else self.ite(eg, cv, val)
                 if val is None:
                     raise Unsupported('phi without executed predecessor in %s:%s' % (name, label))
@@ -988,6 +1098,8 @@ class Exec:
         return val, rg
 
     def _define(self, env, name, val, g):
+        if getattr(env, 'raw', None) is not None:
+            env.raw[name] = (env.view, val)
         old = env.get(name)
         if old is not None and not z3.is_true(g):
             # redefinition in a later loop iteration: the newest executed instance wins
